@@ -739,7 +739,7 @@ package gedcom
 //@   requires family != nil && individual != nil
 //@ func FamilyNode.AddChild
 //@   props C14 C13
-//@   safety
+//@   safety C14
 //@   inline
 //@   requires node != nil && individual != nil
 //@   ghost nAdd int = 0
